@@ -40,6 +40,7 @@ type Stats struct {
 	EngineErrors  int
 	Panics        int
 	ErrSamples    []string
+	PanicSamples  []string
 	PathSamples   []PathSample
 	Funcs         map[string]int64
 	AssertsByMsg  map[string]int
